@@ -71,9 +71,12 @@ def family(tier):
     wins = [("default", 3, WL, True, 1, False, ("xx",)), ("default", 3, WL, True, 1, True, ("key",)),
             ("default", 2, WL, False, 1, True, ("fork",))]
     if tier != "quick":
-        wins = [(v, 3 if c else 2, WL, c, 1, w, o) for v in ("default", "press", "release") for c in (False, True)
-                for w in (False, True) for o in (("key",), ("xx",), ("fork",))]
-        wins += [("default", 3, WL, True, 1, w, o) for w in (False, True) for o in (("key", "xx"), ("fork", "key"))]
+        # (a subset of variant x concurrency x wrapping x other-key action that keeps the tier within its time budget)
+        wins += [(v, 3 if c else 2, WL, c, 1, w, o) for (v, c) in (("default", False), ("press", False), ("press", True),
+                                                                   ("release", True), ("release", False))
+                 for w in (False, True) for o in ((("xx",), ("fork",)) if w else (("key",), ("fork",)))]
+        wins += [("default", 3, WL, True, 1, w, o) for (w, o) in ((False, ("key", "xx")), (True, ("fork", "key")))]
+        wins = sorted(set(wins), key=wins.index)
     for (v, H, W, c, r, w, o) in wins:
         keys = ("a", "b", "c")[:1 + len(o)]
         F.append(("%s_H%d_W%d_%s_r%d_%s_%s" % (v.replace("-", ""), H, W, "cq" if c else "nq", r, "multi" if w else "bare",
@@ -93,9 +96,10 @@ def run(tier, seed):
     wd = workdir("c05")
     jobs_random, witness_jobs = [], []
     only = os.environ.get("C05_ONLY", "")     # development aid: restrict the family to the instances whose name contains it
-    for name, (desc, params, custom) in family(tier):
-        if only and only not in name:
-            continue
+    fam = [f for f in family(tier) if not only or only in f[0]]
+
+    def explore(f):
+        name, (desc, params, custom) = f
         kbd = cfgdesc.render_kbd(desc)
         keys = [cfgdesc.code(k) for k in desc["keys"]]
         inst = {"name": "c05_" + name, "kbd": kbd, "keys": keys, "qmax": 3, "custom_th": custom,
@@ -110,7 +114,18 @@ def run(tier, seed):
             inst["extra_defs"] = 'QtwProbe == mon.wk = "" \\/ PrintT(<<"QTW", ToJson([h |-> hist, k |-> mon.wk])>>)'
             inst["invariants"] = ["StutterProbe", "QtwProbe"]
             inst["extra_tags"] = ["QTW"]
-        r = mc.check_instance(inst, wd, workers=6, timeout=1200)
+        iwd = os.path.join(wd, "mc_" + name)      # one work directory per instance: three instances are explored at a time
+        os.makedirs(iwd, exist_ok=True)
+        return mc.check_instance(inst, iwd, workers=4, timeout=1200)
+
+    from concurrent.futures import ThreadPoolExecutor
+    build_harness()
+    cfgdesc.keytable()
+    with ThreadPoolExecutor(max_workers=3) as ex:
+        explored = list(ex.map(explore, fam))
+    for (name, (desc, params, custom)), r in zip(fam, explored):
+        kbd = cfgdesc.render_kbd(desc)
+        keys = [cfgdesc.code(k) for k in desc["keys"]]
         res.add_instance(r)
         if len(res.samples) < 3:
             res.samples.append({"instance": name, "kbd": kbd, "states": r["states"], "edges": r.get("edges")})
